@@ -85,7 +85,7 @@ def main(tier, seed, replay=None, prop=PROP, oracles=(pc.oracle_c07,), props_fil
                        'a worker that neither answers nor dies is outside the property (the run is cut off as "blocked")',
                        'workers are not closed by the user while run() is in progress; no worker sends a bare None message']
     res.trusted.append('hand-written model Pool/Model.v (tied to pool.py by differential execution only) and harness/sched_pool.py')
-    core.prove(res, prop, [], PROOFS, props_file=props_file)
+    core.prove(res, prop, [], PROOFS, props_file=props_file, run_files=['theories/Pool/Run.v'])
     import sys
     sys.path.insert(0, core.REPO)
     if replay:
